@@ -55,6 +55,21 @@ CLAIMED.update({
             "Only pruning implied by the bloom expression and the prefilter is demanded (the regex field guard may prune more).", "DESIGN.md section 5 C24"),
 })
 
+CLAIMED.update({
+    "C03": ("exploration",
+            "property-based testing (rapid): round-trip oracle (encoding/json) for fidelity plus snapshot/deep-mutation invariant over generated concurrent query schedules (early Close, held rows, later scans recycling pooled buffers)",
+            "Generated rows (escapes, unicode, every numeric kind, raw JSON incl. duplicate keys, byte-identical duplicates) in layouts with several pool-eligible blocks; 1-6 concurrent query goroutines; every received row snapshotted, mutated and re-checked after further scans. Exploration: buffer reuse by sync.Pool is made likely, not forced.",
+            "Trusts encoding/json as the reference decoder (as the property states) and reflect.DeepEqual.", "DESIGN.md section 5 C03"),
+    "C25": ("exploration",
+            "property-based testing (rapid): truth-table oracle — abstract boolean formulas built through constructors / raw structs / QueryBuilder scripts, evaluated by one engine query over a fixed 32-row dataset; JSON round-trip metamorphic check (same results, same re-marshal); arbitrary trees checked with the independent evaluator",
+            "Each case compares a full 32-row truth table, so any difference between the written formula and the built/flattened/serialized tree is visible. Exploration over formulas of depth <= 3 and builder scripts of <= 6 calls.",
+            "Builder sequences the documentation does not decide (Match after chained conditions) accept either reading; strings that are not valid UTF-8 are outside the JSON round-trip domain.", "DESIGN.md section 5 C25"),
+    "C26": ("exploration",
+            "property-based testing (rapid): statistical differential — each written filter is compared with a reference filter the harness builds for the true distinct entries at the configured rate (parameters and measured false-positive rate over the same absent probes)",
+            "Entry counts from 1 to 20 000 (quick) / 300 000 (thorough), rates from 0.9 to 1e-4, block and file level, flushed and merged files. Statistical (7 sigma), not a proof.",
+            "Assumes bits-and-blooms NewWithEstimates is the intended sizing rule (README: filters are sized from measured distinct entries).", "DESIGN.md section 5 C26"),
+})
+
 PENDING_REASON ="check not yet built in this revision of /verif (no technical obstacle; see DESIGN.md section 5)"
 
 def main():
